@@ -176,7 +176,7 @@ func TestVerifProber(t *testing.T) {
 								atomic.AddInt32(&bad, 1)
 							}
 						}()
-						for k := 0; k < 400; k++ {
+						for k := 0; k < 4000; k++ {
 							pl, hh, e := generatePayload(size)
 							s2 := sha256.Sum256(pl)
 							if e != nil || len(pl) != size || !bytes.Equal(hh, s2[:]) {
